@@ -2,11 +2,12 @@ import CddVerif.Driver.PyStr
 import CddVerif.Driver.C09
 import CddVerif.Driver.C18
 import CddVerif.Driver.C11
+import CddVerif.Driver.C10
 /-! Line-protocol driver: one JSON request per line on stdin → one JSON reply per line on stdout. -/
 open Lean
 
 def allOps : List (String × Driver.Handler) :=
-  Driver.PyStr.ops ++ Driver.C09.ops ++ Driver.C18.ops ++ Driver.C11.ops
+  Driver.PyStr.ops ++ Driver.C09.ops ++ Driver.C18.ops ++ Driver.C11.ops ++ Driver.C10.ops
 
 def handle (line : String) : String :=
   match Json.parse line with
